@@ -11,6 +11,362 @@ import (
 
 const dschedRel = "internal/scheduler"
 
+func init() {
+	register(&Prop{ID: "C09", Run: runC09,
+		Technique: "static analysis: constant / value-flow agreement of the tick arithmetic and the cron parser's granularity, dominance guards of start / stop / invoke, enum table of entry kinds, must-pass-through of error isolation and lock release in the directory loaders (go/ssa)",
+		Decided: []string{
+			"a tick at t reads entries as Next(t+c) with a constant -60s ≤ c < 0 and invokes an entry only when its Next is not after t; a `break` on the first future entry is preceded by sorting on Next; the next tick is computed from the previous tick (not from the wall clock) as +1 minute truncated to the minute; the cron parser has no seconds field (C09.tick)",
+			"the start guard: not running, and last start truncated to the minute before the scheduled minute (C09.start-guard); stop only when running, restart unconditionally (C09.stop-guard)",
+			"entries built from Schedule / StopSchedule / RestartSchedule carry the matching kind, Invoke maps each kind to the same-named job method, suspended DAGs contribute no entry (C09.entry-table)",
+			"a file that fails to load neither ends directory initialisation nor the watcher loop, and the watcher releases its mutex on every way round the loop (C09.bad-file-isolation); the metadata loader is panic-free for decoded pointers (C13, shared obligation evaluated there)",
+		},
+		NotDec: []string{"cron matching over the calendar (robfig/cron)", "that no minute is missed or doubled over whole tick sequences and restarts", "fsnotify delivery; timer behaviour under clock jumps"},
+	})
+}
+
+func runC09(e *Env) {
+	c09Tick(e)
+	c09StartGuard(e)
+	c09StopGuard(e)
+	c09EntryTable(e)
+	c09BadFile(e)
+}
+
+func timeAddConst(v ssa.Value, recv func(ssa.Value) bool) (int64, bool) {
+	c, ok := ir.Resolve(v).(*ssa.Call)
+	if !ok || !ir.IsCallTo(&c.Call, "(time.Time).Add") || !recv(c.Call.Args[0]) {
+		return 0, false
+	}
+	return ir.ConstInt(c.Call.Args[1])
+}
+
+func c09Tick(e *Env) {
+	r := e.R
+	r.Rule("C09.tick", "AGR+VF", "tick arithmetic and invocation guard", 5)
+	run := e.Fn(dschedRel, "(*Scheduler).run")
+	start := e.Fn(dschedRel, "(*Scheduler).start")
+	next := e.Fn(dschedRel, "(*Scheduler).nextTick")
+	if run == nil || start == nil || next == nil {
+		return
+	}
+	nowP := ssa.Value(run.Params[1])
+	isNow := func(v ssa.Value) bool { return ir.Resolve(v) == nowP }
+	// (a) Read(now + c)
+	n := 0
+	for _, ci := range ir.CallsIn(run, func(c *ssa.CallCommon) bool { return c.IsInvoke() && c.Method.Name() == "Read" }) {
+		n++
+		c, ok := timeAddConst(ci.Common().Args[0], isNow)
+		r.Check(ok && c < 0 && c >= -60_000_000_000, "run: entries read at tick + c with -60s ≤ c < 0", e.InstrPos(ci),
+			sprintf("the entry reader is asked for Next(tick%+dns): with c ≥ 0 the tick's own minute is never returned, with c < -60s earlier minutes are replayed", c))
+	}
+	if n == 0 {
+		r.Unknown("run: entry reader call", e.Pos(run.Pos()), "not found")
+	}
+	// (b) invocation guard
+	var invoke ssa.Instruction
+	for _, f := range ir.WithClosures(run) {
+		for _, ci := range ir.CallsIn(f, func(c *ssa.CallCommon) bool { return strings.HasSuffix(ir.CalleeName(c), "entry).Invoke") }) {
+			invoke = ci
+			site := ssa.Instruction(ci)
+			if f != run {
+				for _, b := range run.Blocks {
+					for _, in := range b.Instrs {
+						if g, isG := in.(*ssa.Go); isG && g.Call.StaticCallee() == f {
+							site = g
+						}
+						if mc, isMC := in.(*ssa.MakeClosure); isMC && mc.Fn == f && site == ssa.Instruction(ci) {
+							site = mc
+						}
+					}
+				}
+			}
+			lits := e.DCS(site)
+			ok := false
+			for _, l := range lits {
+				if l.Kind == "val" && !l.Pol {
+					if c, isC := ir.Resolve(l.V).(*ssa.Call); isC && ir.IsCallTo(&c.Call, "(time.Time).After") && e.IsFieldRead(c.Call.Args[0], nil, "Next") && isNow(c.Call.Args[1]) {
+						ok = true
+					}
+				}
+				if l.Kind == "val" && l.Pol {
+					if c, isC := ir.Resolve(l.V).(*ssa.Call); isC && ir.IsCallTo(&c.Call, "(time.Time).Before") && isNow(c.Call.Args[0]) && e.IsFieldRead(c.Call.Args[1], nil, "Next") {
+						ok = false // strictly before would skip the tick's own minute
+					}
+				}
+			}
+			r.Check(ok, "run: an entry is invoked only when !entry.Next.After(tick)", e.InstrPos(site),
+				"entries are invoked although their next time is after the tick (future minutes run early), or the guard uses another comparison", e.FactsStr("dominating conditions: ", lits))
+			// break on the first future entry needs the entries sorted by Next
+			loops := ir.Loops(run)
+			l := ir.InnermostLoop(loops, site.Block())
+			if l != nil {
+				breaks := false
+				for b := range l.Blocks {
+					if b == l.Header {
+						continue
+					}
+					for _, sx := range b.Succs {
+						if !l.Blocks[sx] {
+							breaks = true
+						}
+					}
+				}
+				if breaks {
+					sorted := false
+					for _, sc := range ir.CallsIn(run, func(c *ssa.CallCommon) bool { return ir.IsCallTo(c, "sort.SliceStable", "sort.Slice") }) {
+						if !ir.Precedes(sc, l.Header.Instrs[0]) && sc.Block() != l.Header {
+							// must be before the loop
+						}
+						if mc, isMC := sc.Common().Args[1].(*ssa.MakeClosure); isMC {
+							less := mc.Fn.(*ssa.Function)
+							for _, b := range less.Blocks {
+								for _, in := range b.Instrs {
+									if rt, isR := in.(*ssa.Return); isR {
+										if c, isC := ir.Resolve(rt.Results[0]).(*ssa.Call); isC && ir.IsCallTo(&c.Call, "(time.Time).Before") &&
+											e.IsFieldRead(c.Call.Args[0], nil, "Next") && e.IsFieldRead(c.Call.Args[1], nil, "Next") {
+											sorted = true
+										}
+									}
+								}
+							}
+						}
+					}
+					r.Check(sorted, "run: the loop stops at the first future entry only after sorting by Next", e.InstrPos(site),
+						"the invocation loop breaks at the first entry whose time is in the future but the entries are not sorted by time: due entries behind it are skipped (missed minute)")
+				}
+			}
+		}
+	}
+	if invoke == nil {
+		r.Unknown("run: Invoke site", e.Pos(run.Pos()), "not found")
+	}
+	// (c) start(): run(t); t = nextTick(t)
+	var tick *ssa.Phi
+	for _, ci := range ir.CallsIn(start, func(c *ssa.CallCommon) bool { return c.StaticCallee() == run }) {
+		if ph, ok := ir.Resolve(ci.Common().Args[1]).(*ssa.Phi); ok {
+			tick = ph
+		}
+	}
+	if tick == nil {
+		r.Bad("start: run(t) with the loop-carried logical tick", e.Pos(start.Pos()), "the daemon does not run ticks from a loop-carried logical time")
+	} else {
+		okNext, okInit := false, false
+		for k, ed := range tick.Edges {
+			c, isC := ir.Resolve(ed).(*ssa.Call)
+			if !isC {
+				continue
+			}
+			if c.Call.StaticCallee() == next {
+				okNext = ir.Resolve(c.Call.Args[1]) == ssa.Value(tick)
+				if !okNext {
+					r.Bad("start: next tick computed from the previous tick", e.InstrPos(c),
+						"the next tick is computed from "+e.C.Render(c.Call.Args[1])+" instead of the previous logical tick: after a late tick every minute boundary crossed in between is skipped (scheduled minutes missed)")
+				}
+			} else if ir.IsCallTo(&c.Call, "(time.Time).Truncate") {
+				if k2, ok := ir.ConstInt(c.Call.Args[1]); ok && k2 == 60_000_000_000 {
+					okInit = true
+				}
+			}
+			_ = k
+		}
+		if okNext {
+			r.OK("start: next tick computed from the previous tick", e.Pos(start.Pos()), "")
+		}
+		r.Check(okInit, "start: first tick = now() truncated to the minute", e.Pos(start.Pos()), "the first logical tick is not minute-aligned")
+	}
+	// nextTick = now.Add(1m).Truncate(1m)
+	okNT := false
+	for _, b := range next.Blocks {
+		for _, in := range b.Instrs {
+			if rt, isR := in.(*ssa.Return); isR {
+				if c, isC := ir.Resolve(RetVals(rt, 0)[0]).(*ssa.Call); isC && ir.IsCallTo(&c.Call, "(time.Time).Truncate") {
+					k, _ := ir.ConstInt(c.Call.Args[1])
+					add, okA := timeAddConst(c.Call.Args[0], func(v ssa.Value) bool { return ir.Resolve(v) == ssa.Value(next.Params[1]) })
+					okNT = okA && add == 60_000_000_000 && k == 60_000_000_000
+				}
+			}
+		}
+	}
+	r.Check(okNT, "nextTick: previous + 1 minute, truncated to the minute", e.Pos(next.Pos()), "ticks do not advance minute by minute")
+	// (d) cron parser granularity
+	sp := e.P.Pkg(dagRel)
+	okCron, found := false, false
+	if sp != nil && sp.Func("init") != nil {
+		for _, ci := range ir.CallsIn(sp.Func("init"), func(c *ssa.CallCommon) bool { return ir.IsCallTo(c, "github.com/robfig/cron/v3.NewParser") }) {
+			found = true
+			if k, ok := ir.ConstInt(ci.Common().Args[0]); ok {
+				okCron = k&3 == 0 && k&4 != 0
+			}
+		}
+	}
+	if !found {
+		r.Unknown("dag: cron parser options", "-", "cron.NewParser call not found in package initialisation")
+	} else {
+		r.Check(okCron, "dag: cron parser has a minute field and no seconds field", "internal/dag/parser.go", "the cron parser accepts a seconds field while the daemon ticks once a minute: expressions with seconds would be missed")
+	}
+}
+
+func c09StopGuard(e *Env) {
+	r := e.R
+	r.Rule("C09.stop-guard", "DCS", "stop only when running; restart unconditional", 2)
+	_, ss := e.EnumOf(schedRel, "Status")
+	running := ConstVal(ss, "StatusRunning")
+	if fn := e.Fn(dschedRel, "(*jobImpl).Stop"); fn != nil {
+		n := 0
+		for _, ci := range ir.CallsIn(fn, func(c *ssa.CallCommon) bool { return c.IsInvoke() && c.Method.Name() == "Stop" }) {
+			n++
+			ok := false
+			for _, l := range e.DCS(ci) {
+				if l.Kind == "cmp" && l.Op == token.EQL && e.IsFieldRead(l.X, nil, "Status") {
+					if k, isC := ir.ConstInt(l.Y); isC && k == running {
+						ok = true
+					}
+				}
+			}
+			r.Check(ok, "jobImpl.Stop: Client.Stop only under latest status == running", e.InstrPos(ci), "a stop schedule acts on a DAG that is not running", e.FactsStr("dominating conditions: ", e.DCS(ci)))
+		}
+		if n == 0 {
+			r.Bad("jobImpl.Stop: Client.Stop only under latest status == running", e.Pos(fn.Pos()), "the stop schedule never stops the DAG")
+		}
+	}
+	if fn := e.Fn(dschedRel, "(*jobImpl).Restart"); fn != nil {
+		ok := false
+		for _, ci := range ir.CallsIn(fn, func(c *ssa.CallCommon) bool { return c.IsInvoke() && c.Method.Name() == "Restart" }) {
+			if len(e.DCS(ci)) == 0 {
+				ok = true
+			}
+		}
+		r.Check(ok, "jobImpl.Restart: Client.Restart unconditionally", e.Pos(fn.Pos()), "a restart schedule does not issue a restart at each matching minute")
+	}
+}
+
+func c09EntryTable(e *Env) {
+	r := e.R
+	r.Rule("C09.entry-table", "VF+ENUM", "schedule kind ↔ entry type ↔ job method", 6)
+	rd := e.Fn(dschedRel, "(*entryReaderImpl).Read")
+	inv := e.Fn(dschedRel, "(*entry).Invoke")
+	_, et := e.EnumOf(dschedRel, "entryType")
+	if rd == nil || inv == nil || len(et) == 0 {
+		return
+	}
+	want := map[string]string{"Schedule": "entryTypeStart", "StopSchedule": "entryTypeStop", "RestartSchedule": "entryTypeRestart"}
+	seen := map[string]bool{}
+	for _, ci := range ir.CallsIn(rd, func(c *ssa.CallCommon) bool { return len(c.Args) >= 3 }) {
+		var sched, typ string
+		for _, a := range ci.Common().Args {
+			if p, ok := e.C.PathOf(a); ok && len(p.Fields) == 1 && want[p.Fields[0]] != "" {
+				sched = p.Fields[0]
+			}
+			if k, ok := ir.ConstInt(a); ok && strings.HasSuffix(ir.NamedType(a.Type()), ".entryType") {
+				typ = et[k]
+			}
+		}
+		if sched == "" {
+			continue
+		}
+		seen[sched] = true
+		r.Check(typ == want[sched], "Read: entries from "+sched+" carry "+want[sched], e.InstrPos(ci), "entries built from "+sched+" carry "+typ)
+		// not for suspended DAGs
+		okS := HasVal(e.DCS(ci), func(v ssa.Value) bool {
+			c, ok := ir.Resolve(v).(*ssa.Call)
+			return ok && c.Call.IsInvoke() && c.Call.Method.Name() == "IsSuspended"
+		}, false)
+		r.Check(okS, "Read: "+sched+" entries only for DAGs that are not suspended", e.InstrPos(ci), "a suspended DAG still contributes schedule entries")
+	}
+	for k := range want {
+		if !seen[k] {
+			r.Bad("Read: entries from "+k+" carry "+want[k], e.Pos(rd.Pos()), "no entries are built from "+k)
+		}
+	}
+	// entries are created with Next = Parsed.Next(now) and the type parameter
+	// Invoke: type → method
+	wantM := map[string]string{"entryTypeStart": "Start", "entryTypeStop": "Stop", "entryTypeRestart": "Restart"}
+	isType := func(v ssa.Value) bool { return e.IsFieldRead(v, nil, "EntryType") }
+	for _, ci := range ir.CallsIn(inv, func(c *ssa.CallCommon) bool { return c.IsInvoke() && wantM["entryType"+c.Method.Name()] != "" }) {
+		set := ir.Restrict(e.DCS(ci), isType, et)
+		m := ci.Common().Method.Name()
+		ok := len(set) == 1 && set[ConstVal(et, "entryType"+m)]
+		r.Check(ok, "Invoke: Job."+m+" only for entryType"+m, e.InstrPos(ci), "job method "+m+" is invoked for entry kinds {"+strings.Join(set.Names(et), ",")+"}")
+	}
+}
+
+func c09BadFile(e *Env) {
+	r := e.R
+	r.Rule("C09.bad-file-isolation", "DCS+MPT", "a file that fails to load does not stop the others; the watcher's lock is released", 3)
+	isLoadErr := func(i *ssa.If, idx int) bool {
+		l := ir.Normalize(ir.Lit{Cond: i.Cond, Pol: idx == 0})
+		if l.Kind != "cmp" || l.Op != token.NEQ || !ir.IsNilConst(l.Y) {
+			return false
+		}
+		ex, ok := ir.Resolve(l.X).(*ssa.Extract)
+		if !ok {
+			return false
+		}
+		c, ok := ex.Tuple.(*ssa.Call)
+		return ok && strings.HasSuffix(ir.CalleeName(&c.Call), "internal/dag.LoadMetadata")
+	}
+	for _, name := range []string{"(*entryReaderImpl).initDags", "(*entryReaderImpl).watchDags"} {
+		fn := e.Fn(dschedRel, name)
+		if fn == nil {
+			continue
+		}
+		loops := ir.Loops(fn)
+		n := 0
+		for _, b := range fn.Blocks {
+			i, ok := b.Instrs[len(b.Instrs)-1].(*ssa.If)
+			if !ok {
+				continue
+			}
+			for idx := 0; idx < 2; idx++ {
+				if !isLoadErr(i, idx) {
+					continue
+				}
+				n++
+				l := ir.InnermostLoop(loops, b)
+				if l == nil {
+					r.Bad(shortName(fn)+": files are loaded inside a loop", e.InstrPos(i), "the loader is not called per file in a loop")
+					continue
+				}
+				bad, _ := ir.Bypass(nil, b.Succs[idx], ir.PathQuery{
+					Stop: func(in ssa.Instruction) bool { return in == l.Header.Instrs[0] },
+					Bad: func(in ssa.Instruction) bool {
+						if ir.IsReturn(in) {
+							return true
+						}
+						return !l.Blocks[in.Block()]
+					}})
+				r.Check(bad == nil, shortName(fn)+": a load error continues with the next file / event", e.InstrPos(i),
+					"a malformed or unloadable file ends the directory scan / the watcher: the other DAGs are not (or no longer) scheduled")
+			}
+		}
+		if n == 0 {
+			r.Unknown(shortName(fn)+": LoadMetadata error test", e.Pos(fn.Pos()), "not found")
+		}
+	}
+	// watcher: Lock ... Unlock on every way round the loop
+	wd := e.FnQuiet(dschedRel, "(*entryReaderImpl).watchDags")
+	if wd != nil {
+		for _, ci := range ir.CallsIn(wd, func(c *ssa.CallCommon) bool { return ir.IsCallTo(c, "(*sync.Mutex).Lock") }) {
+			loops := ir.Loops(wd)
+			l := ir.InnermostLoop(loops, ci.Block())
+			bad, _ := ir.Bypass(ci, nil, ir.PathQuery{
+				Stop: func(in ssa.Instruction) bool {
+					c, ok := in.(*ssa.Call)
+					return ok && ir.IsCallTo(&c.Call, "(*sync.Mutex).Unlock")
+				},
+				DeferStop: func(d *ssa.Defer) bool { return ir.IsCallTo(&d.Call, "(*sync.Mutex).Unlock") },
+				Bad: func(in ssa.Instruction) bool {
+					if ir.IsReturn(in) {
+						return true
+					}
+					return l != nil && in == l.Header.Instrs[0]
+				}})
+			r.Check(bad == nil, "watchDags: the DAG map lock is released on every path round the loop", e.InstrPos(ci),
+				"some path (e.g. a load error or an ignored event) keeps the lock: the next tick's Read blocks forever and nothing is scheduled any more")
+		}
+	}
+}
+
 // c09StartGuard: jobImpl.Start issues the start only when the DAG is not
 // running and its last start (truncated to the minute) is before the scheduled minute.
 func c09StartGuard(e *Env) {
